@@ -19,6 +19,7 @@ import MwVerif.Driver.Braces
 import MwVerif.Driver.SplitRow
 import MwVerif.Driver.Table
 import MwVerif.Driver.Spans
+import MwVerif.Driver.Merge
 
 open MwVerif.Driver
 
@@ -40,6 +41,7 @@ def main (args : List String) : IO UInt32 := do
   | ["splitrow"] => loop stdin stdout SplitRow.step; return 0
   | ["table"] => loop stdin stdout Table.step; return 0
   | ["spans"] => loop stdin stdout Spans.step; return 0
+  | ["merge"] => loop stdin stdout Merge.step; return 0
   | ["c20"] => loop stdin stdout C20.step; return 0
   | ["c10"] => loop stdin stdout C10.step; return 0
   | ["c13"] => loop stdin stdout C13.step; return 0
